@@ -9,6 +9,7 @@ mod store;
 mod world;
 mod invite;
 mod mediaw;
+mod crashw;
 
 fn main() {
     let args: Vec<String> = std::env::args().collect();
@@ -18,6 +19,7 @@ fn main() {
         Some("world") => world::main(&args[2..]),
         Some("invite") => invite::main(&args[2..]),
         Some("mediaw") => mediaw::main(&args[2..]),
+        Some("crashw") => crashw::main(&args[2..]),
         Some("leak") => leak::main(&args[2..]),
         Some("appmsg") => appmsg::main(&args[2..]),
         Some("atrest") => atrest::main(&args[2..]),
